@@ -14,7 +14,9 @@ BINDS = ["local", "global", "weak", "unique"]
 VISES = ["default", "protected", "hidden", "internal"]
 TYPES = ["func", "object", "tls", "notype", "abs"]
 FATES = ["retained", "gc", "xl-all", "xl-lib", "vs-local", "dyn-list", "eds"]
-AXES = [BINDS, VISES, TYPES, FATES]
+DUPS = ["single", "dup"]
+AXES = [BINDS, VISES, TYPES, FATES, DUPS]
+NA = len(AXES)
 NSLOT = 4
 BIND_NUM = {"local": STB_LOCAL, "global": STB_GLOBAL, "weak": STB_WEAK, "unique": STB_GNU_UNIQUE}
 VIS_NUM = {"default": STV_DEFAULT, "protected": STV_PROTECTED, "hidden": STV_HIDDEN,
@@ -25,13 +27,23 @@ ARCHIVE_FATES = ("xl-all", "xl-lib")
 
 
 def legal(sym):
-    """The only illegal combination: a local symbol with non-default visibility."""
-    b, v, _t, _f = sym
-    return not (b == "local" and v != "default")
+    """Illegal combinations, skipped by rule: a local symbol with non-default visibility; a second
+    (weak, losing) definition in dup.o for anything but a global / weak symbol of main.o.  Partial
+    tuples (None for an axis not yet chosen) are legal when some completion is."""
+    b, v, _t, f, d = sym
+    if b == "local" and v not in (None, "default"):
+        return False
+    if d == "dup" and (b in ("local", "unique") or f in ARCHIVE_FATES):
+        return False
+    return True
 
 
 def all_symbol_tuples():
     return [s for s in itertools.product(*AXES) if legal(s)]
+
+
+def _legal_idx(vals):
+    return legal(tuple(None if x is None else AXES[a][x] for a, x in enumerate(vals)))
 
 
 # ------------------------------------------------------------------------------ covering array
@@ -44,15 +56,11 @@ def covering_array(strength):
     in index order, each to the value that covers the most elements of U together with the factors
     fixed so far (ties: the first value in the cyclic order starting at row_number mod levels);
     values that would make a slot illegal are not considered.  Returns rows of 4 symbol tuples."""
-    nf = NSLOT * 4
-    levels = [len(AXES[f % 4]) for f in range(nf)]
+    nf = NSLOT * NA
+    levels = [len(AXES[f % NA]) for f in range(nf)]
 
     def ok_partial(row):
-        for s in range(NSLOT):
-            b, v = row[4 * s], row[4 * s + 1]
-            if b is not None and v is not None and BINDS[b] == "local" and VISES[v] != "default":
-                return False
-        return True
+        return all(_legal_idx(row[NA * s:NA * s + NA]) for s in range(NSLOT))
 
     unc = {}
     for combo in itertools.combinations(range(nf), strength):
@@ -98,12 +106,13 @@ def covering_array(strength):
             row[f] = best
         for c in itertools.combinations(range(nf), strength):
             unc[c].discard(tuple(row[g] for g in c))
-        rows.append(tuple(tuple(AXES[a][row[4 * s + a]] for a in range(4)) for s in range(NSLOT)))
+        rows.append(tuple(tuple(AXES[a][row[NA * s + a]] for a in range(NA))
+                          for s in range(NSLOT)))
     return rows
 
 
 def tuple_cover_rows():
-    """Rows in which every legal per-symbol tuple (all 4 axes jointly) occurs once: the 455 legal
+    """Rows in which every legal per-symbol tuple (all axes jointly) occurs once: the legal
     tuples in lexicographic order, dealt to rows of 4 (the last row is padded with the first
     tuples)."""
     ts = all_symbol_tuples()
@@ -120,16 +129,16 @@ def tuple_cover_rows():
 
 def uncovered(rows, strength):
     """Number of legal `strength`-way combinations NOT covered by rows (verification of the array)."""
-    nf = NSLOT * 4
-    flat = [[r[s][a] for s in range(NSLOT) for a in range(4)] for r in rows]
+    nf = NSLOT * NA
+    flat = [[r[s][a] for s in range(NSLOT) for a in range(NA)] for r in rows]
     missing = 0
     for combo in itertools.combinations(range(nf), strength):
         seen = {tuple(fr[f] for f in combo) for fr in flat}
-        for vs in itertools.product(*[AXES[f % 4] for f in combo]):
+        for vs in itertools.product(*[AXES[f % NA] for f in combo]):
             syms = {}
             for f, x in zip(combo, vs):
-                syms.setdefault(f // 4, {})[f % 4] = x
-            if any(d.get(0) == "local" and d.get(1, "default") != "default" for d in syms.values()):
+                syms.setdefault(f // NA, {})[f % NA] = x
+            if not all(legal(tuple(d.get(a) for a in range(NA))) for d in syms.values()):
                 continue
             if vs not in seen:
                 missing += 1
@@ -147,16 +156,17 @@ SEC_OF_TYPE = {"func": (".text", SHF_ALLOC | SHF_EXECINSTR), "object": (".data",
                "tls": (".tdata", SHF_ALLOC | SHF_WRITE | SHF_TLS), "notype": (".rodata", SHF_ALLOC)}
 
 
-def _define(o, slot, sym, tag):
-    b, v, t, _f = sym
+def _define(o, slot, sym, tag, bind=None, extra=0):
+    b, v, t = sym[:3]
+    bind = BIND_NUM[b] if bind is None else bind
     name = f"s{slot}"
     if t == "abs":
-        return o.symbol(name, section="abs", value=ABS_VALUE[slot], size=0, bind=BIND_NUM[b],
+        return o.symbol(name, section="abs", value=ABS_VALUE[slot] + extra, size=0, bind=bind,
                         type=STT_NOTYPE, vis=VIS_NUM[v])
     pre, flags = SEC_OF_TYPE[t]
     sec = o.section(f"{pre}.{name}", flags=flags, align=8, data=marker(tag, slot) + bytes(8))
-    return o.symbol(name, section=sec, value=0, size=8 + slot, bind=BIND_NUM[b], type=TYPE_NUM[t],
-                    vis=VIS_NUM[v])
+    return o.symbol(name, section=sec, value=0, size=8 + slot + extra, bind=bind,
+                    type=TYPE_NUM[t], vis=VIS_NUM[v])
 
 
 def _ref(code, relocs, sym, t, absrefs=None):
@@ -182,8 +192,10 @@ def _absrefs_section(o, syms, code, relocs):
 
 
 def build_program(row, imports):
-    """-> (main.o bytes, member m.o bytes or None, expectations).  expectations: per symbol name a
-    dict(slot, bind, vis, type, fate, where ('main'|'archive'), marker|None, value|None, size)."""
+    """-> (main.o bytes, member m.o bytes or None, dup.o bytes or None, expectations).
+    expectations: per symbol name a dict(slot, bind, vis, type, fate, dup, where
+    ('main'|'archive'), marker|None, value|None, size) describing the WINNING definition (a dup.o
+    definition is weak and comes after main.o on the command line, so it always loses)."""
     unique = any(s[0] == "unique" for s in row)
     main = ElfObject("x86_64", osabi=3 if unique else 0)
     main.symbol("main.c", section="abs", bind=STB_LOCAL, type=STT_FILE)
@@ -195,12 +207,18 @@ def build_program(row, imports):
         member = ElfObject("x86_64", osabi=3 if unique else 0)
         member.symbol("m.c", section="abs", bind=STB_LOCAL, type=STT_FILE)
         mcode, mrelocs, mabs = bytearray(), [], []
+    dup = None
     for i, s in enumerate(row):
-        b, v, t, f = s
+        b, v, t, f, dp = s
         o = member if i in arch_slots else main
         tag = 2 if i in arch_slots else 1
         symobj = _define(o, i, s, tag)
-        exp[f"s{i}"] = dict(slot=i, bind=b, vis=v, type=t, fate=f,
+        if dp == "dup":
+            if dup is None:
+                dup = ElfObject("x86_64")
+                dup.symbol("dup.c", section="abs", bind=STB_LOCAL, type=STT_FILE)
+            _define(dup, i, s, 4, bind=STB_WEAK, extra=16)
+        exp[f"s{i}"] = dict(slot=i, bind=b, vis=v, type=t, fate=f, dup=(dp == "dup"),
                             where="archive" if i in arch_slots else "main",
                             marker=None if t == "abs" else marker(tag, i).hex(),
                             value=ABS_VALUE[i] if t == "abs" else None,
@@ -224,7 +242,7 @@ def build_program(row, imports):
         relocs.append((len(code) + 1, R_X86_64_PLT32, xa, -4))
         code += b"\xe8\0\0\0\0"
         exp["xanchor"] = dict(slot=None, bind="global", vis="default", type="func", fate="xanchor",
-                              where="archive", marker=marker(3, 9).hex(), value=None,
+                              dup=False, where="archive", marker=marker(3, 9).hex(), value=None,
                               size=8 + len(mcode))
     _absrefs_section(main, absrefs, code, relocs)
     if imports:
@@ -242,8 +260,11 @@ def build_program(row, imports):
         main.reloc(ts, 8 + off, rt, sym, add)
     main.note_gnu_stack()
     exp["_start"] = dict(slot=None, bind="global", vis="default", type="func", fate="entry",
-                         where="main", marker=marker(3, 8).hex(), value=None, size=8 + len(code))
-    return main.to_bytes(), (member.to_bytes() if member is not None else None), exp
+                         dup=False, where="main", marker=marker(3, 8).hex(), value=None, size=8 + len(code))
+    if dup is not None:
+        dup.note_gnu_stack()
+    return (main.to_bytes(), member.to_bytes() if member is not None else None,
+            dup.to_bytes() if dup is not None else None, exp)
 
 
 def import_library_object():
